@@ -51,13 +51,18 @@ def spline_boxes(ctx, gen):
     for fam in S.FAMS:
         for K in ((1, 4) if ctx.quick() else (1, 2, 4, 9)):
             for regime in ('zeros', 'normal', 'wide', 'onehot'):
-                for box in boxes:
+                for bi, box in enumerate(boxes):
                     n = 12
                     params = S.make_params(fam, n, K, False, regime, torch.float64, gen)
                     x = box[0] + (box[1] - box[0]) * torch.rand(n, dtype=torch.float64, generator=gen)
                     x[0] = box[0]; x[1] = box[1]
-                    kind, y, ld = S.impl_call(fam, x, params, False, False, box, None)
-                    reqs.append(S.model_req(fam, x, params, False, False, box, None))
+                    extra = None
+                    if fam != 'lin' and bi == 1:
+                        extra = {'min_bin_width': 0.02, 'min_bin_height': 0.05}
+                        if fam == 'rq':
+                            extra['min_derivative'] = 0.03
+                    kind, y, ld = S.impl_call(fam, x, params, False, False, box, None, extra=extra)
+                    reqs.append(S.model_req(fam, x, params, False, False, box, None, cfg=extra))
                     metas.append((fam, K, regime, box, x, kind, y, ld))
     for meta, resp in zip(metas, leandriver.call(reqs)):
         fam, K, regime, box, x, kind, y, ld = meta
